@@ -72,6 +72,28 @@ def run(ctx: Ctx):
             ok = f"{var} < 0" in t and f"{var} >= self.size" in t
             ctx.ob("R17.1", f"{fn.qual}: raise under {t[:70]}", (fn, r_), ok, "rejected iff index < 0 or index >= size" if ok else
                    "rejection condition is not (index < 0 or index >= size)", key=key_of("R17.1", fn, None, "raise cond " + t[:60]))
+    # every result of dateToIdx is the conversion arithmetic itself or a clamp decided on the computed INDEX: an answer taken
+    # from a comparison of dates short-cuts the floor (time(size-1) <= end does not make end's floor index size-1)
+    fd2i = facts_of(d2i)
+    gd2i = cfg_of(d2i)
+    for r in returns(d2i):
+        if r.value is None:
+            continue
+        v = r.value
+        while isinstance(v, ast.Call) and norm(v.func) == "int" and v.args:
+            v = v.args[0]
+        if isinstance(v, ast.Name) and v.id == "idx":
+            continue
+        fs = fd2i.at(gd2i.node_of(r))
+        idx_fact = any(len(cl) == 1 and next(iter(cl))[0].replace(" ", "").startswith("idx") for cl in fs)
+        low_ok = isinstance(v, ast.Constant) and v.value == 0 and any(
+            len(cl) == 1 and next(iter(cl))[1] and next(iter(cl))[0].replace(" ", "") in ("date<=self.startDate", "date<self.startDate") for cl in fs)
+        ok = idx_fact or low_ok
+        ctx.ob("R17.1", f"{d2i.qual}: return {norm(r.value)} decided on the computed index", (d2i, r), ok,
+               "clamp result under a fact about the computed index" if ok else
+               "a result is returned under a comparison of DATES, not of the computed index: for a window that is not a whole number of "
+               "slots long the instant `end` floors to size-2, so time(index(t)) > t",
+               key=key_of("R17.1", d2i, None, "return " + norm(r.value)))
     # clamp results
     res = local_resolver(d2i.node)
     clamp = []
@@ -207,6 +229,53 @@ def run(ctx: Ctx):
             ok = tab == {"<": False, "=": True, ">": True}
             ctx.ob("R17.5", f"{ci.qual}: run kept iff {norm(i.test)}", (ci, i), ok, "runs of at least the minimum length are reported" if ok else
                    f"minimum-length test has the wrong shape ({tab})", key="R17.5|collectIntervals|min length")
+    # a slot that does not match closes the open run on EVERY path: from the non-matching branch of the predicate test the
+    # loop step is reached only through `duration = 0` and `start = <sentinel>`, or along the edge where no run is open
+    gci = cfg_of(ci)
+    wl = [w for w in own_nodes(ci) if isinstance(w, ast.While)]
+    if len(wl) != 1:
+        raise AnchorMissing(f"collectIntervals: {len(wl)} while loops")
+    ptest = [i for i in wl[0].body if isinstance(i, ast.If) and "predicate(" in norm(i.test)]
+    step = [x for x in wl[0].body if isinstance(x, ast.AugAssign) and norm(x.target) == "idx"]
+    if len(ptest) != 1 or len(step) != 1 or not ptest[0].orelse:
+        raise AnchorMissing("collectIntervals: predicate test / loop step not found")
+    pn, sn = gci.node_of(ptest[0]), gci.node_of(step[0])
+    for var, what in (("duration", "run length"), ("start", "run start")):
+        def resets(n, var=var):
+            return n.ast is not None and isinstance(n.ast, ast.Assign) and norm(n.ast.targets[0]) == var and isinstance(
+                n.ast.value, (ast.Constant, ast.UnaryOp))
+        seen_, todo, leak = set(), [], None
+        for (b, l) in gci.succ[pn.id]:
+            if l == "F":
+                todo.append(b)
+        if not todo:
+            raise AnchorMissing("collectIntervals: false edge of the predicate test not found")
+        while todo:
+            a = todo.pop()
+            if a in seen_:
+                continue
+            seen_.add(a)
+            na = gci.nodes[a]
+            if a == sn.id:
+                leak = na
+                break
+            if resets(na):
+                continue
+            for (b, l) in gci.succ[a]:
+                if l in ("exc", "excb"):
+                    continue
+                # the edge on which no run is open needs no reset
+                tst = na.ast.test if isinstance(na.ast, ast.If) else na.ast
+                if na.kind == "if" and isinstance(tst, ast.Compare):
+                    tab = order_table(tst, lambda e: norm(e) == "duration", lambda e: isinstance(e, ast.Constant) and e.value == 0)
+                    if tab == {"<": False, "=": False, ">": True} and l == "F":
+                        continue
+                todo.append(b)
+        ctx.ob("R17.5", f"{ci.qual}: a non-matching slot resets the {what} on every path", (ci, ptest[0]), leak is None,
+               f"{var} is reset before the next slot is examined unless no run is open" if leak is None else
+               f"a path from the non-matching branch reaches the loop step without resetting {var}: a run that is too short is not "
+               "discarded and leaks into the next run (one interval is reported across the gap)",
+               key=f"R17.5|collectIntervals|reset {var}")
     ms = [x for x in own_nodes(ci) if isinstance(x, ast.Assign) and norm(x.targets[0]) == "minDurationSlots" and "int(" in norm(x.value)]
     ok = bool(ms) and norm(ms[0].value) == "int(minDuration / self.resolution)"
     ctx.ob("R17.5", f"{ci.qual}: {norm(ms[0]) if ms else '-'}", ci, ok, "minimum duration converted to slots" if ok else
@@ -215,7 +284,7 @@ def run(ctx: Ctx):
     ctx.floor("R17.2", 4)
     ctx.floor("R17.3", 2)
     ctx.floor("R17.4", 5)
-    ctx.floor("R17.5", 7)
+    ctx.floor("R17.5", 9)
 
 
 def _ancestors(n):
